@@ -276,7 +276,7 @@ def corpus_inputs(pid):
     return [l.strip() for l in open(p) if l.strip() and not l.startswith("#")]
 
 
-def run_eval(inputs, mask=None, stall_s=60, variant="plain"):
+def run_eval(inputs, mask=None, stall_s=45, variant="plain"):
     """Run the real code on `inputs`. Returns (t, outputs) with one output line per input.
     A crash / stall of the harness is attributed to the first unanswered input, which gets
     the synthetic output `fault <what>`; the harness is restarted on the rest."""
@@ -341,6 +341,9 @@ def run_eval(inputs, mask=None, stall_s=60, variant="plain"):
             outputs.append(f"{culprit} => fault {what}")
             pos += 1
             restarts += 1
+            if what == "timeout":
+                # a hang costs a full stall period per line: one is decisive (it is re-tried once, alone, by evaluate)
+                break
             if restarts >= 3:
                 # three crashes / hangs are decisive; do not spend hours on the rest (they stay unevaluated)
                 break
@@ -380,7 +383,7 @@ def evaluate(inputs, mask=None, variant="plain"):
     for i_, o_ in enumerate(outs):
         if o_.endswith(" => fault timeout") and retried < 2:
             retried += 1
-            _t2, again = run_eval([inputs[i_]], mask, stall_s=150, variant=variant)
+            _t2, again = run_eval([inputs[i_]], mask, stall_s=100, variant=variant)
             if again:
                 outs[i_] = again[0]
     res = []
